@@ -93,8 +93,8 @@ CLAIMED["C01"] = dict(
     note="Trusted: gcc 12 / clang 14 (-O0 and -O2, chosen per program), rustc, the canonical value serialisers on the three sides (Python expectation, Rust logger, C printer). x86-64 SysV only.",
     ref="DESIGN.md §2 C01")
 CLAIMED["C10"] = dict(
-    engine="P", technique="metamorphic + end-to-end property testing of twin spellings (Option/DiplomatOption, Result/DiplomatResult, Self/named) through the generated C header",
-    text="Generated twin methods that differ only in spelling receive identical generated call vectors: their C declarations must be token-identical and both must behave identically when executed; the wire encoding is observed from C (raw is_ok byte 0/1 after the payload union, sizeof equal to the macro's type, NULL iff None for optional pointers, unit arms without payload). Exploration.",
+    engine="P", technique="metamorphic + end-to-end property testing of twin spellings (Option/DiplomatOption, Result/DiplomatResult, Self/named) through the generated C header (every third program also through the generated C++ API)",
+    text="Generated twin methods that differ only in spelling receive identical generated call vectors: their C declarations must be token-identical and both must behave identically when executed (C always; C++ std::optional / std::nullopt / diplomat::result on every third program; optional strings and slices, Option<Self>, results next to a DiplomatWrite included); the wire encoding is observed from C (raw is_ok byte 0/1 after the payload union, sizeof equal to the macro's type, NULL iff None for optional pointers, unit arms without payload). Exploration.",
     note="Trusted: as C01. Both spellings are generated only for primitive, enum and struct payloads.",
     ref="DESIGN.md §2 C10")
 
